@@ -6,6 +6,7 @@ import (
 	"go/parser"
 	"go/token"
 	"go/types"
+	"path/filepath"
 	"sort"
 	"strings"
 
@@ -49,9 +50,32 @@ func LoadVariant(base *World, overlay map[string][]byte) (*World, error) {
 	for _, p := range base.Pkgs {
 		visit(p)
 	}
+	// files the overlay adds (not part of any loaded package): they join the package of their directory
+	known := map[string]bool{}
+	dirPkg := map[string]string{}
+	for _, p := range order {
+		for _, f := range p.CompiledGoFiles {
+			known[f] = true
+			dirPkg[filepath.Dir(f)] = p.PkgPath
+		}
+	}
+	added := map[string][]string{}
+	for f := range overlay {
+		if !known[f] && strings.HasSuffix(f, ".go") {
+			if pp, ok := dirPkg[filepath.Dir(f)]; ok {
+				added[pp] = append(added[pp], f)
+			}
+		}
+	}
+	for _, fs := range added {
+		sort.Strings(fs)
+	}
 	// which packages are affected: those with an overlaid file, and their reverse deps
 	affected := map[string]bool{}
 	for _, p := range order {
+		if len(added[p.PkgPath]) > 0 {
+			affected[p.PkgPath] = true
+		}
 		for _, f := range p.CompiledGoFiles {
 			if _, ok := overlay[f]; ok {
 				affected[p.PkgPath] = true
@@ -91,7 +115,14 @@ func LoadVariant(base *World, overlay map[string][]byte) (*World, error) {
 				files = append(files, p.Syntax[i])
 			}
 		}
-		np := &packages.Package{ID: p.ID, Name: p.Name, PkgPath: p.PkgPath, GoFiles: p.GoFiles, CompiledGoFiles: p.CompiledGoFiles,
+		for _, fname := range added[p.PkgPath] {
+			f, err := parser.ParseFile(base.Fset, fname, overlay[fname], parser.ParseComments|parser.SkipObjectResolution)
+			if err != nil {
+				return nil, fmt.Errorf("parse %s: %v", fname, err)
+			}
+			files = append(files, f)
+		}
+		np := &packages.Package{ID: p.ID, Name: p.Name, PkgPath: p.PkgPath, GoFiles: p.GoFiles, CompiledGoFiles: append(append([]string(nil), p.CompiledGoFiles...), added[p.PkgPath]...),
 			Imports: map[string]*packages.Package{}, Syntax: files, Fset: base.Fset, TypesSizes: p.TypesSizes, Module: p.Module}
 		for ip, q := range p.Imports {
 			if f, ok := fresh[ip]; ok {
